@@ -1,8 +1,8 @@
 """exact_common.py — the experiment shared by C01 (valid basis) and C02 (minimum weight / returned value): run the three
-sequential exact entry points on generated graphs (double and int weights), compare mcb_sva_signed and
+sequential exact entry points on generated graphs (double, int and long long weights; the 64-bit ones above 2^53), compare mcb_sva_signed and
 bidirectional_signed_dijkstra EXACTLY with the extracted SignedModel (oracles recovered from the run), and judge every
 implementation answer (i) with the verified checker `mcbcheck` extracted from RefModel.v and (ii) with the independent
-Python oracle."""
+Python oracle.  Everything on the Python side (parsing, canonicalisation, judges) computes with Python integers: no float on the way."""
 import json, os
 import lib, gen, mcb_oracle as O
 
@@ -57,6 +57,28 @@ def alg_cases(rng, tier):
     return cases
 
 
+def gen_graph64(rng, maxn):
+    """a graph with 64-bit integer weights above 2^53 for the `long long` instantiation (props/c12.py weigh64: sums that are not doubles, distinct
+    weights that collide as doubles, (m+4)*sum(w) < 2^63)"""
+    from props import c12
+    r = rng.random()
+    if r < 0.3: g = dense_small(rng)
+    elif r < 0.5: g = gen.random_connected_sparse(rng, rng.randint(6, maxn), rng.randint(1, 6))
+    else: g = gen.structural(rng, maxn)
+    return c12.weigh64(rng, g)
+
+
+def alg_cases64(rng, tier):
+    """the three entry points instantiated with long long weights: A <alg> L 0 <graph>"""
+    cases = []
+    for i in range(170 if tier == "quick" else 1500):
+        g, style = gen_graph64(rng, 14 if tier == "quick" else 30)
+        gt = gen.graph_tokens(g)
+        for alg in ALGS:
+            cases.append(("A %s L 0 %s" % (alg, gt), g, "64:" + style))
+    return cases
+
+
 def small_exhaustive_cases(maxv=5):
     """all simple graphs on <= maxv labelled vertices with weights from {1,2} varied by edge position (thorough)"""
     out = []
@@ -72,12 +94,13 @@ def small_exhaustive_cases(maxv=5):
     return out
 
 
-def bidir_cases(rng, tier):
-    nb = 5000 if tier == "quick" else 40000
+def bidir_cases(rng, tier, long64=False):
+    """direct search calls; long64: the long long instantiation on 64-bit weights above 2^53 (B L ...)"""
+    nb = (5000 if tier == "quick" else 40000) if not long64 else (800 if tier == "quick" else 6000)
     maxn = 12 if tier == "quick" else 24
     cases = []
     while len(cases) < nb:
-        g, style = gen_graph(rng, maxn)
+        g, style = gen_graph64(rng, maxn) if long64 else gen_graph(rng, maxn)
         n, es = g
         if n < 2 or not es: continue
         m = len(es)
@@ -96,7 +119,7 @@ def bidir_cases(rng, tier):
                 if s == t and spos == tpos: continue
             tot = sum(w for _, _, w in es)
             lim = "-" if rng.random() < 0.4 else str(rng.randint(1, max(2, tot // 2 + 2)))
-            ty = "D" if rng.random() < 0.7 or not gen.int_domain_ok(g) else "I"
+            ty = "L" if long64 else "D" if rng.random() < 0.7 or not gen.int_domain_ok(g) else "I"
             cases.append("B %s %d %d %d %d %d %s %d %s %d %s %s" % (ty, uh, s, spos, t, tpos, lim, len(sg), " ".join(map(str, sg)),
                                                                  len(hd), " ".join(map(str, hd)), gen.graph_tokens(g)))
     return cases[:nb]
@@ -167,6 +190,11 @@ def run(c, tier, what):
     if tier == "thorough":
         acases += small_exhaustive_cases(5)
     bcases += bidir_cases(c.rng, tier)
+    # the 64-bit integer instantiation (generated last: the double / int streams above are unchanged)
+    acases += alg_cases64(c.rng, tier)
+    bcases += bidir_cases(c.rng, tier, long64=True)
+    c.rule += ("; plus the same entry points and search calls instantiated with long long weights above 2^53 (2^53+r, 2^54+{0..3}, 2^54+permutation, 2^b+r up to "
+               "b = 60, heavy/light mixes; (m+4)*sum(w) < 2^63)")
     lines = [a[0] for a in acases]
     io = lib.run_lines([exe], lines)
     # ---- E-level: mcb_sva_signed vs model -------------------------------------------------------
